@@ -536,7 +536,7 @@ pub fn check(property: &str, tier: Tier) -> i32 {
                     }
                     w.pending = rest.clone();
                     w.respawns += 1;
-                    if w.respawns > 25 {
+                    if w.respawns > 6 {
                         harness_errors.push(format!("worker {id}: too many restarts, remaining runs of this shard skipped"));
                         live -= 1;
                         continue;
